@@ -3,8 +3,10 @@ simkit::interpose_getrandom!();
 
 mod c14;
 mod c15;
+mod c24;
+mod c25;
 mod c57;
 
 fn main() {
-    simkit::main_with(vec![c14::check(), c15::check(), c57::check()]);
+    simkit::main_with(vec![c14::check(), c15::check(), c24::check(), c25::check_c25(), c25::check_c26(), c57::check()]);
 }
